@@ -370,7 +370,9 @@ def finish(mod, modname, prop, args, seed, cases, results, t0):
     # ---- counterexamples: replay on the real code before reporting anything
     violations = []
     known_hits = {}
-    rep_dir = os.path.join(VERIF, "replays", prop)
+    scratch = os.path.realpath(os.environ.get("VERIF_REPO", "/repo")) != "/repo"
+    out_root = os.path.join(tempfile.gettempdir(), "verif_scratch") if scratch else VERIF
+    rep_dir = os.path.join(out_root, "replays", prop)
     by_case = {}
     for cname, rec in failing:
         by_case.setdefault(cname, []).append(rec)
@@ -446,8 +448,8 @@ def finish(mod, modname, prop, args, seed, cases, results, t0):
         "wall_s": round(wall, 2),
         "violations": len(violations),
     }
-    os.makedirs(os.path.join(VERIF, "evidence"), exist_ok=True)
-    with open(os.path.join(VERIF, "evidence", "%s.json" % prop), "w") as f:
+    os.makedirs(os.path.join(out_root, "evidence"), exist_ok=True)
+    with open(os.path.join(out_root, "evidence", "%s.json" % prop), "w") as f:
         json.dump(ev, f, indent=1)
     print("%s tier=%s cases=%d paths=%d obligations=%d discharged=%d routes=%s wall=%.1fs" % (prop, args.tier, len(cases), paths, n_ob, n_proved, routes, wall))
     for what in sorted(known_hits):
